@@ -4,8 +4,10 @@
 (* (IntIntMap, IntKeyMap, IntSet, StringSet) against PlainMap.  One event  *)
 (* per public call (harness/c12):                                          *)
 (*                                                                         *)
-(*   Reset  t ek ...                new object of type t; ek = rank of the *)
-(*                                  empty string in the key pool (0: none) *)
+(*   Reset  t ek [none] ...         new object of type t; ek = rank of the *)
+(*                                  empty string in the key pool (0: none);*)
+(*                                  none = <<NONE>>: the public NONE field *)
+(*                                  the IntIntMap under test was given     *)
 (*   <Op>   k v ks vs dir           the call and its arguments             *)
 (*          ret | b | rk rz | seq | pairs | items | bytes                  *)
 (*                                  what it returned (projected)           *)
@@ -25,13 +27,19 @@ VARIABLE l
 tvars == <<vars, l>>
 
 \* the conventions of the four types (part of the specification, not logged)
-TypeCfg == [IntIntMap |-> [set |-> FALSE, none |-> <<0>>, rej |-> FALSE],
-            IntKeyMap |-> [set |-> FALSE, none |-> <<>>,  rej |-> FALSE],
-            IntSet    |-> [set |-> TRUE,  none |-> <<0>>, rej |-> FALSE],
-            StringSet |-> [set |-> TRUE,  none |-> <<>>,  rej |-> TRUE]]
-CfgOf(t, ek) == [t |-> t, set |-> TypeCfg[t].set, none |-> TypeCfg[t].none, rej |-> TypeCfg[t].rej, ek |-> ek]
+\* (IntKeyMap's values are objects: they may be nil; values are logged as codes,
+\* the nil object as NilV, see PlainMap)
+TypeCfg == [IntIntMap |-> [set |-> FALSE, none |-> <<0>>, rej |-> FALSE, nil |-> FALSE],
+            IntKeyMap |-> [set |-> FALSE, none |-> <<>>,  rej |-> FALSE, nil |-> TRUE],
+            IntSet    |-> [set |-> TRUE,  none |-> <<0>>, rej |-> FALSE, nil |-> FALSE],
+            StringSet |-> [set |-> TRUE,  none |-> <<>>,  rej |-> TRUE,  nil |-> FALSE]]
+\* none: what the object was configured to answer for "absent" (IntIntMap's public
+\* NONE field is an input of the history like the constructor arguments; the
+\* other types have no such configuration)
+CfgOf(t, ek, none) == [t |-> t, set |-> TypeCfg[t].set, none |-> none, rej |-> TypeCfg[t].rej,
+                       nil |-> TypeCfg[t].nil, ek |-> ek]
 
-TraceInit == InitWith(CfgOf("IntIntMap", 0)) /\ l = 1 /\ HwmInit
+TraceInit == InitWith(CfgOf("IntIntMap", 0, <<0>>)) /\ l = 1 /\ HwmInit
 
 Step(n) == IsEv(l, n) /\ l' = l + 1
 e == Trace[l]
@@ -44,7 +52,9 @@ Obs == Has(e, "size") /\ e.size = Cardinality(DOMAIN m')
 TraceReset == /\ Step("Reset")
               /\ Has(e, "t") /\ Has(e, "ek") /\ e.t \in DOMAIN TypeCfg
               /\ m' = EmptyFn
-              /\ cfg' = CfgOf(e.t, e.ek)
+              /\ IF Has(e, "none")
+                 THEN e.t = "IntIntMap" /\ Len(e.none) = 1 /\ cfg' = CfgOf(e.t, e.ek, e.none)
+                 ELSE cfg' = CfgOf(e.t, e.ek, TypeCfg[e.t].none)
               /\ Obs
 
 \* ---- insertion ------------------------------------------------------------
@@ -74,7 +84,11 @@ Member(name) == Step(name) /\ Has(e, "k") /\ Has(e, "b") /\ e.b = Present(e.k) /
 TraceContainsKey == Member("ContainsKey")
 TraceContains    == Member("Contains")
 TraceHasKey      == Member("HasKey")
-TraceContainsValue == Step("ContainsValue") /\ Has(e, "v") /\ Has(e, "b") /\ e.b = HasValue(e.v) /\ ReadOnly /\ Obs
+\* asking for the nil object: the Java original throws, the Go type answers FALSE
+\* whatever is stored; the model accepts that answer (TRUE only if a nil is stored)
+TraceContainsValue == /\ Step("ContainsValue") /\ Has(e, "v") /\ Has(e, "b")
+                      /\ IF cfg.nil /\ e.v = NilV THEN (e.b => HasValue(NilV)) ELSE e.b = HasValue(e.v)
+                      /\ ReadOnly /\ Obs
 TraceIsEmpty == Step("IsEmpty") /\ Has(e, "b") /\ e.b = (Stored = {}) /\ ReadOnly /\ Obs
 
 \* ---- removal ------------------------------------------------------------------
